@@ -488,7 +488,7 @@ Proof.
   destruct (N.eqb_spec (Z.to_N (s + zone_off zone)) 4294967295) as [E|_]; [lia|].
   change (kind_timelocal =? kind_timeutc) with false. cbv iota.
   rewrite (norm_field_local pf s 0 zone Hk Ha).
-  destruct ((ds_ts st =? 0) || (ds_ts st <? c_systemTimeMarker)); cbn [fst]; eexists; (split; [reflexivity|]);
+  destruct (negb (ds_hasts st) || (ds_ts st <? c_systemTimeMarker)); cbn [fst]; eexists; (split; [reflexivity|]);
     rewrite (norm_field_local pf _ _ _ Hk Ha); cbn [zone_off]; f_equal; lia.
 Qed.
 
